@@ -296,6 +296,9 @@ def cases(tier, seed):
         out.append({"kind": "fit", "tau": tau, "M": 1e3, "p_i": 6000.0, "sched": "buildup", "n": 40, "filter": flt, "window": w,
                     "n_iter": 4, "dirty": bool(flt), "index": idx, "guess": "below" if idx is None else "inside"})
     out += [{"kind": "objective", "tau": 60.0, "M": 1e3, "p_i": 6000.0, "sched": "buildup", "n": 40, "dev": list(d)} for d in devs[:3]]
+    # long histories (four years of daily data): anything that thins or batches the simulated days
+    out += [{"kind": "objective", "tau": 180.0, "M": 5e4, "p_i": 9000.0, "sched": sc, "n": 1500, "dev": [1.0, 1.0, 1.0]}
+            for sc in ("ramp", "stepwise")]
     return out
 
 
